@@ -24,6 +24,8 @@ look-ups (F-58, found by this proof: before that repair the statement below was 
 -/
 import PrimaiteModel.Lemmas.ForwardInv
 import PrimaiteModel.Props.C08Forward
+import PrimaiteModel.Props.C08FuelMono
+import PrimaiteModel.Props.C08Addressee
 namespace Primaite.Forward
 open Primaite.Route (findBestRoute Table)
 
@@ -967,5 +969,209 @@ theorem T_requestService {c : List NodeCfg} (hg : GoodCfg c) (fuel : Nat) (hb : 
   split
   · exact h1
   · split <;> exact h2
+
+/-! ### the configuration check survives interface and power toggles -/
+
+/-- what `GoodCfg` reads of a node: everything but the `enabled` flags, prefix lengths and peers. -/
+def NodeCfg.addr (nc : NodeCfg) : Kind × Option Ip × Table × List (Mac × Ip) :=
+  (nc.kind, nc.gateway, nc.routes, nc.ifaces.map (fun a => (a.mac, a.ip)))
+
+theorem addr_iface {nc nc' : NodeCfg} (h : nc.addr = nc'.addr) {i : Nat} {a' : Iface} (ha : nc'.ifaces[i]? = some a') :
+    ∃ a, nc.ifaces[i]? = some a ∧ a.mac = a'.mac ∧ a.ip = a'.ip := by
+  have hm : (nc.ifaces.map (fun a => (a.mac, a.ip)))[i]? = (nc'.ifaces.map (fun a => (a.mac, a.ip)))[i]? := by
+    have := congrArg (fun x => x.2.2.2) h
+    simp only [NodeCfg.addr] at this
+    rw [this]
+  simp only [List.getElem?_map, ha, Option.map_some] at hm
+  cases hx : nc.ifaces[i]? with
+  | none => rw [hx] at hm; cases hm
+  | some a =>
+    rw [hx] at hm
+    simp only [Option.map_some, Option.some.injEq, Prod.mk.injEq] at hm
+    exact ⟨a, rfl, hm.1, hm.2⟩
+
+theorem addr_hop {nc nc' : NodeCfg} (h : nc.addr = nc'.addr) {t : Ip} (ht : IsNextHop nc' t) : IsNextHop nc t := by
+  have h1 : nc.gateway = nc'.gateway := congrArg (fun x => x.2.1) h
+  have h2 : nc.routes = nc'.routes := congrArg (fun x => x.2.2.1) h
+  unfold IsNextHop at *
+  rw [h1, h2]; exact ht
+
+theorem goodCfg_congr {c c' : List NodeCfg}
+    (h : ∀ (n : Nat) (nc' : NodeCfg), c'[n]? = some nc' → ∃ nc : NodeCfg, c[n]? = some nc ∧ nc.addr = nc'.addr)
+    (hg : GoodCfg c) : GoodCfg c' := by
+  constructor
+  · intro n m i j nc' mc' a' b' hn ha hm hb hab
+    obtain ⟨nc, hn1, hn2⟩ := h n nc' hn
+    obtain ⟨mc, hm1, hm2⟩ := h m mc' hm
+    obtain ⟨a, ha1, ha2, _⟩ := addr_iface hn2 ha
+    obtain ⟨b, hb1, hb2, _⟩ := addr_iface hm2 hb
+    exact hg.uniqueMacs n m i j nc mc a b hn1 ha1 hm1 hb1 (by rw [ha2, hb2]; exact hab)
+  · intro n i nc' a' hn ha
+    obtain ⟨nc, hn1, hn2⟩ := h n nc' hn
+    obtain ⟨a, ha1, ha2, _⟩ := addr_iface hn2 ha
+    rw [← ha2]
+    exact hg.realMacs n i nc a hn1 ha1
+  · intro n nc' t hn ht m j mc' b' hm hb hbt
+    obtain ⟨nc, hn1, hn2⟩ := h n nc' hn
+    obtain ⟨mc, hm1, hm2⟩ := h m mc' hm
+    obtain ⟨b, hb1, _, hb3⟩ := addr_iface hm2 hb
+    have hk : mc.kind = mc'.kind := congrArg (fun x => x.1) hm2
+    rw [← hk]
+    exact hg.hopsAreRouters n nc t hn1 (addr_hop hn2 ht) m j mc b hm1 hb1 (by rw [hb3]; exact hbt)
+
+/-- a change of one node that leaves its addresses alone keeps the configuration good. -/
+theorem goodCfg_modNode (st : St) (n : Nat) (f : Node → Node) (hf : ∀ nd, (f nd).cfg.addr = nd.cfg.addr)
+    (hg : GoodCfg (cfgOf st)) : GoodCfg (cfgOf (st.modNode n f)) := by
+  refine goodCfg_congr ?_ hg
+  intro k nc' hk
+  unfold cfgOf St.modNode at hk
+  simp only [List.getElem?_map, List.getElem?_modify] at hk
+  unfold cfgOf
+  simp only [List.getElem?_map]
+  cases hx : st.nodes[k]? with
+  | none => rw [hx] at hk; simp at hk
+  | some nd =>
+    rw [hx] at hk
+    refine ⟨nd.cfg, rfl, ?_⟩
+    split at hk
+    · have hk' : (f nd).cfg = nc' := by simpa using hk
+      rw [← hk']; exact (hf nd).symm
+    · have hk' : nd.cfg = nc' := by simpa using hk
+      rw [← hk']
+
+theorem ifaces_modify_addr (l : List Iface) (i : Nat) (b : Bool) :
+    (l.modify i (fun x => { x with enabled := b })).map (fun a => (a.mac, a.ip)) = l.map (fun a => (a.mac, a.ip)) := by
+  apply List.ext_getElem?
+  intro k
+  simp only [List.getElem?_map, List.getElem?_modify]
+  split
+  · cases l[k]? <;> rfl
+  · cases l[k]? <;> rfl
+
+/-! ### the theorem for whole runs -/
+
+/-- what a run keeps: the configuration passes the check and the interpreter has never run out of fuel. -/
+def Live (st : St) : Prop := GoodCfg (cfgOf st) ∧ st.oof = false
+
+theorem live_enableIface (fuel : Nat) (hb : fuelBound ≤ fuel) (st : St) (n i : Nat) (h : Live st) :
+    Live (enableIface fuel st n i) := by
+  unfold fuelBound at hb
+  rw [enableIface_eq]
+  split
+  · rename_i nd ifc hn hi
+    have hX : Live (enableSt st n i nd ifc) := by
+      unfold enableSt
+      split
+      · exact ⟨goodCfg_modNode st n _ (fun nd => by
+          simp only [Node.cfg, NodeCfg.addr, ifaces_modify_addr]) h.1, h.2⟩
+      · exact h
+    generalize enableSt st n i nd ifc = X at hX
+    unfold helloGw
+    split
+    · rename_i g _ _
+      split
+      · have := (tAt hX.1 fuel).mac X n g false false ⟨rfl, hX.2⟩ (by have : flagRank false false = 3 := rfl; omega)
+        exact ⟨this.cfg ▸ hX.1, this.ok⟩
+      · exact hX
+    · exact hX
+  · exact h
+
+theorem live_runOp (fuel : Nat) (hb : fuelBound ≤ fuel) (st : St) (op : NetOp) (h : Live st) : Live (runOp fuel st op).1 := by
+  cases op with
+  | ping n dst k =>
+    have := T_ping h.1 fuel hb st n dst k ⟨rfl, h.2⟩
+    exact ⟨this.cfg ▸ h.1, this.ok⟩
+  | service n srv =>
+    have := T_requestService h.1 fuel hb st n srv ⟨rfl, h.2⟩
+    exact ⟨this.cfg ▸ h.1, this.ok⟩
+  | enable n i => exact live_enableIface fuel hb st n i h
+  | disable n i =>
+    exact ⟨goodCfg_modNode st n _ (fun nd => by simp only [Node.cfg, NodeCfg.addr, ifaces_modify_addr]) h.1, h.2⟩
+  | arpclear n => exact ⟨goodCfg_modNode st n _ (fun nd => rfl) h.1, h.2⟩
+  | power n on =>
+    cases on
+    · refine ⟨goodCfg_modNode st n _ (fun nd => ?_) h.1, h.2⟩
+      simp only [Node.cfg, NodeCfg.addr, List.map_map]
+      rfl
+    · simp only [runOp, powerOn]
+      split
+      · exact h
+      · refine foldl_inv Live (fun acc i => enableIface fuel acc n i) (fun a x ha => live_enableIface fuel hb a n x ha) _ _ ?_
+        exact ⟨goodCfg_modNode st n _ (fun nd => rfl) h.1, h.2⟩
+
+/-- a run: the operations one after the other, each with nesting budget `fuel`; the results in order. -/
+def runOps (fuel : Nat) : St → List NetOp → St × List Bool
+  | st, [] => (st, [])
+  | st, op :: ops =>
+    let r := runOp fuel st op
+    let rs := runOps fuel r.1 ops
+    (rs.1, r.2 :: rs.2)
+
+/-- **"Handling any packet always terminates"** — for whole runs, with an a-priori bound.
+From any state whose configuration passes the check (`GoodCfg`: unique, real MACs; gateways and route next hops are addresses
+that only routers carry — decidable, `goodCfgB`) and that has not run out of fuel, ANY sequence of operations (pings of any
+count to any address, service requests, interface enable / disable, power off / on, cache clears) executed with ANY nesting
+budget `fuel ≥ fuelBound = 1323` (a constant: it depends only on the initial TTL 64, not even on the size of the topology)
+  * never runs out of fuel — every cascade of floods, hops, ARP look-ups, requests, replies and answers ends, whatever the
+    caches and tables contain, and
+  * computes exactly what it computes with budget `fuelBound`: results, final state, the whole log (fuel independence). -/
+theorem C08_handling_terminates (st : St) (h : Live st) (ops : List NetOp) (fuel : Nat) (hb : fuelBound ≤ fuel) :
+    Live (runOps fuel st ops).1 ∧ runOps fuel st ops = runOps fuelBound st ops := by
+  induction ops generalizing st with
+  | nil => exact ⟨h, rfl⟩
+  | cons op ops ihops =>
+    simp only [runOps]
+    have h1 := live_runOp fuelBound (Nat.le_refl _) st op h
+    have heq : runOp fuel st op = runOp fuelBound st op := by
+      obtain ⟨k, rfl⟩ := Nat.exists_eq_add_of_le hb
+      exact C08_fuel_independent fuelBound st op h1.2 k
+    rw [heq]
+    have h2 := ihops (runOp fuelBound st op).1 h1
+    exact ⟨h2.1, by rw [h2.2]⟩
+
+/-- the same for one operation, spelled out. -/
+theorem C08_operation_terminates (st : St) (hg : GoodCfg (cfgOf st)) (hok : st.oof = false) (op : NetOp) (fuel : Nat)
+    (hb : fuelBound ≤ fuel) : (runOp fuel st op).1.oof = false ∧ runOp fuel st op = runOp fuelBound st op := by
+  have h1 := live_runOp fuelBound (Nat.le_refl _) st op ⟨hg, hok⟩
+  obtain ⟨k, rfl⟩ := Nat.exists_eq_add_of_le hb
+  have := C08_fuel_independent fuelBound st op h1.2 k
+  exact ⟨by rw [this]; exact h1.2, this⟩
+
+/-- END-TO-END for checked start states (what the driver evaluates on every generated topology). -/
+theorem C08_handling_terminates_checked (st : St) (hchk : goodCfgB (cfgOf st) = true) (hok : st.oof = false)
+    (ops : List NetOp) (fuel : Nat) (hb : fuelBound ≤ fuel) :
+    (runOps fuel st ops).1.oof = false ∧ runOps fuel st ops = runOps fuelBound st ops :=
+  let h := C08_handling_terminates st ⟨goodCfg_of_check _ hchk, hok⟩ ops fuel hb
+  ⟨h.1.2, h.2⟩
+
+/-! ### Gen obligations: what the ranking argument rests on, regenerated from the source on every run -/
+
+theorem C08_gen_termination :
+    Gen.Forward.dmzOutboundDropsBroadcastFirst = true ∧ Gen.Forward.routerResolvesOutboundWithoutArp = true ∧
+    Gen.Forward.repliesStartNothing = true ∧ Gen.Forward.arpPairsGenuine = true ∧ Gen.Forward.gatewayNotViaGateway = true ∧
+    Gen.Forward.processDropsBroadcast = true ∧ Gen.Forward.defaultTtl = initTtl ∧ 4 * initTtl.toNat + 1066 ≤ fuelBound := by decide
+
+/-! ### non-vacuity -/
+
+/-- the routed network of `C08Addressee.lean` (host — router — host, cold caches) satisfies the hypothesis … -/
+example : Live exNet := ⟨goodCfg_of_check _ (by decide), rfl⟩
+/-- … and a run on it at exactly `fuelBound` does real work: cold routed ping (two ARP cascades), a ping while the router is
+off, power on again (hello to nobody), a ping to an absent address, a service request to a host without the server. -/
+example : (runOps fuelBound exNet [.ping 0 0xC0A80202#32 2, .power 1 false, .ping 0 0xC0A80202#32 1, .power 1 true,
+    .ping 2 0xC0A80102#32 1, .ping 0 0xC0A80263#32 1, .arpclear 0, .disable 2 0, .ping 0 0xC0A80202#32 1, .enable 2 0,
+    .ping 0 0xC0A80202#32 1]).2 = [true, true, false, true, true, false, true, true, false, true, true] := by decide +kernel
+example : (runOps fuelBound exNet [.ping 0 0xC0A80202#32 2]).1.oof = false := by decide +kernel
+/-- every class is inhabited: frames the interpreter builds on `exNet`. -/
+def exP : Frame :=
+  { id := 0, srcMac := 2, dstMac := 1, srcIp := 0xC0A80101#32, dstIp := 0xC0A80102#32, ttl := 64,
+    pl := .arpRep 0xC0A80101#32 2 0xC0A80102#32 1 }
+def exQ1 : Frame :=
+  { id := 0, srcMac := 1, dstMac := bcastMac, srcIp := 0xC0A80102#32, dstIp := 0xC0A80101#32, ttl := 64,
+    pl := .arpReq 0xC0A80102#32 1 0xC0A80101#32 }
+def exE : Frame :=
+  { id := 0, srcMac := 1, dstMac := 2, srcIp := 0xC0A80102#32, dstIp := 0xC0A80202#32, ttl := 64, pl := .echoReq 7 }
+example : ClsOk (cfgOf exNet) .p exP := ⟨⟨_, _, _, _, rfl⟩, 0, 0, _, _, rfl, rfl, rfl, rfl⟩
+example : ClsOk (cfgOf exNet) .q1 exQ1 := ⟨⟨_, _, rfl, 0, 0, _, _, rfl, rfl, rfl, rfl⟩, rfl, 0, _, rfl, Or.inl rfl⟩
+example : ClsOk (cfgOf exNet) .e exE := Or.inl ⟨7, rfl⟩
 
 end Primaite.Forward
